@@ -34,14 +34,6 @@ spec fn sub_entry(d: DFA, from: u32, id: InpId, t: (DFAId, u32)) -> bool {
 } // verus!
 verus! {
 
-/// s is the source or the target of some transition
-spec fn is_end(d: DFA, s: u32) -> bool {
-    exists|q: u32, id: InpId| #[trigger] used(d, q, id) && (q == s || d.transitions@[q][id] == s)
-}
-
-} // verus!
-verus! {
-
 /// the symbol runs the external command c (as a command or as a zsh compadd)
 spec fn is_cmd(x: Inp, c: Ustr) -> bool {
     match x {
